@@ -53,7 +53,7 @@ fn key_half<'a>(v: MV) -> ValXs<'a, MV> {
     }
 }
 
-//@ tier: thorough
+//@ tier: attempt
 //@ timeout: 2400
 //@ inst: V = MV; elements are machine integers, the key filter is `. / 2` (so 2k and 2k+1 tie)
 //@ funcs: jaq_std::sort_by::<MV>
